@@ -88,7 +88,13 @@ class TermInterp:
     attr_hook(base_term, attr) -> term or NotImplemented."""
 
     def __init__(self, decide=None, call_hook=None, attr_hook=None, name_hook=None, max_paths: int = 64):
-        self.decide = decide or self._default_decide
+        if decide is None:
+            self.decide = self._default_decide
+        else:
+            def both(test, env, _d=decide):
+                r = _d(test, env)
+                return r if r is not None else self._default_decide(test, env)
+            self.decide = both
         self.call_hook = call_hook
         self.attr_hook = attr_hook
         self.name_hook = name_hook
@@ -196,6 +202,19 @@ class TermInterp:
             base = self.ev(node.value, env)
             if isinstance(base, (tuple, list)) and isinstance(node.slice, ast.Constant):
                 return base[node.slice.value]
+            if isinstance(base, (tuple, list)):
+                def as_int(x):
+                    if x is None:
+                        return None
+                    v = self.ev(x, env)
+                    if isinstance(v, int):
+                        return v
+                    if isinstance(v, sp.Integer):
+                        return int(v)
+                    raise Unsupported(f"non-constant index {norm(x)}")
+                if isinstance(node.slice, ast.Slice):
+                    return base[slice(as_int(node.slice.lower), as_int(node.slice.upper), as_int(node.slice.step))]
+                return base[as_int(node.slice)]
             if isinstance(base, dict) and isinstance(node.slice, ast.Constant):
                 return base[node.slice.value]
             raise Unsupported(f"subscript {norm(node)}")
